@@ -650,6 +650,30 @@ func (v *Verifier) VerifyFunc(fc *FuncContract) (res *FuncResult) {
 	}
 	ex.bindDebugNames(post, nil)
 	res.PostEnv = post
+	// `option sink:<param> <callees…>`: the parameter (an output stream) is
+	// used only as the first argument of the listed writers, here and in the
+	// closures that capture it; it is not stored, converted, compared or
+	// handed to anything else that could write to it later.
+	var sinkKeys []string
+	for k := range fc.Options {
+		if strings.HasPrefix(k, "sink:") {
+			sinkKeys = append(sinkKeys, k)
+		}
+	}
+	sort.Strings(sinkKeys)
+	for _, k := range sinkKeys {
+		pname := strings.TrimPrefix(k, "sink:")
+		bad, n := sinkEscapes(fn, pname, strings.Fields(fc.Options[k]))
+		goal := "true"
+		if len(bad) > 0 || n == 0 {
+			goal = "false"
+		}
+		so := ex.addObl("sink", pname, "true", goal, fn.Pos(), fmt.Sprintf("`%s` is only ever the destination of %s (%d uses); other uses: %v", pname, fc.Options[k], n, bad), false)
+		if goal == "false" {
+			// decided on the SSA form: nothing for a solver to do
+			so.Status, so.Solver, so.Raw = "sat", "ssa-scan", so.Text
+		}
+	}
 	for ci, ca := range fc.CallAsserts {
 		if !ex.assertSeen[fmt.Sprintf("%d %s", ca.Ordinal, ca.Callee)] && !ca.Assume {
 			// the call site the assertion is attached to does not exist
@@ -1095,4 +1119,100 @@ func (v *Verifier) VerifyLemma(lm *Lemma) (res *FuncResult) {
 		Text: lm.Text, Ctx: c, Inputs: inputs}
 	res.Obls = []*Obligation{o}
 	return
+}
+
+// sinkEscapes follows the parameter `pname` of fn through spills, closures,
+// interface conversions and phis and reports every use that is not "first
+// argument of one of the allowed callees". n counts the allowed uses.
+func sinkEscapes(fn *ssa.Function, pname string, allowed []string) (bad []string, n int) {
+	var root ssa.Value
+	for _, p := range fn.Params {
+		if p.Name() == pname {
+			root = p
+		}
+	}
+	if root == nil {
+		return []string{"no parameter " + pname}, 0
+	}
+	seen := map[ssa.Value]bool{}
+	var visit func(v ssa.Value, cell bool)
+	pos := func(in ssa.Instruction) string {
+		p := fn.Prog.Fset.Position(in.Pos())
+		return fmt.Sprintf("%s:%d", filepath.Base(p.Filename), p.Line)
+	}
+	// cell: v is the address of a variable holding the stream (spill / free variable)
+	visit = func(v ssa.Value, cell bool) {
+		if seen[v] {
+			return
+		}
+		seen[v] = true
+		refs := v.Referrers()
+		if refs == nil {
+			return
+		}
+		for _, in := range *refs {
+			switch in := in.(type) {
+			case *ssa.DebugRef:
+			case *ssa.Store:
+				if cell && in.Addr == v {
+					if in.Val != root && !seen[in.Val] {
+						bad = append(bad, pos(in)+": the variable is assigned another value")
+					}
+					continue
+				}
+				if !cell && in.Val == v {
+					if a, ok := in.Addr.(*ssa.Alloc); ok {
+						visit(a, true)
+						continue
+					}
+					bad = append(bad, pos(in)+": stored in memory")
+					continue
+				}
+			case *ssa.UnOp:
+				if cell && in.Op == token.MUL {
+					visit(in, false)
+					continue
+				}
+				bad = append(bad, pos(in)+": "+in.String())
+			case *ssa.MakeClosure:
+				for i, b := range in.Bindings {
+					if b == v {
+						visit(in.Fn.(*ssa.Function).FreeVars[i], cell)
+					}
+				}
+			case *ssa.Phi, *ssa.ChangeInterface, *ssa.MakeInterface, *ssa.ChangeType:
+				if !cell {
+					visit(in.(ssa.Value), false)
+					continue
+				}
+				bad = append(bad, pos(in)+": "+in.String())
+			case ssa.CallInstruction:
+				cc := in.Common()
+				name := calleeName(cc)
+				ok := false
+				if !cell && len(cc.Args) > 0 && cc.Args[0] == v && !cc.IsInvoke() {
+					for _, a := range allowed {
+						if strings.HasSuffix(name, a) {
+							ok = true
+						}
+					}
+					for _, other := range cc.Args[1:] {
+						if other == v {
+							ok = false
+						}
+					}
+				}
+				if ok {
+					n++
+				} else {
+					bad = append(bad, pos(in)+": passed to "+name)
+				}
+			default:
+				bad = append(bad, pos(in)+": "+in.String())
+			}
+		}
+	}
+	visit(root, false)
+	sort.Strings(bad)
+	return bad, n
 }
